@@ -177,7 +177,12 @@ class CoverpointModel(CoverItemBase):
     
     def get_inst_coverage(self):
         if not self.coverage_calc_valid:
-            self.coverage = (len(self.hit_l)-len(self.unhit_s))/len(self.hit_l) * 100.0
+            # A bin is covered once it has been hit 'at_least' times
+            n_covered = 0
+            for hits in self.hit_l:
+                if hits >= self.options.at_least:
+                    n_covered += 1
+            self.coverage = (100*n_covered)/len(self.hit_l)
             self.coverage_calc_valid = True
         
         return self.coverage
@@ -212,8 +217,9 @@ class CoverpointModel(CoverItemBase):
         """Called by a bin to signal that an uncovered bin has been covered"""
         self.coverage_calc_valid = False
         if bin_type == CoverpointBinType.Bins:
+            # Any hit can take the bin across its 'at_least' threshold
+            self.parent.coverage_ev(self, bin_idx)
             if bin_idx in self.unhit_s:
-                self.parent.coverage_ev(self, bin_idx)
                 self.unhit_s.remove(bin_idx)
             self.hit_l[bin_idx] += 1
             self.coverage_calc_valid = False
